@@ -344,7 +344,7 @@ func replayDir() string {
 func (p *Prop[C]) writeReplay(kind, note string, raw []byte) string {
 	dir := replayDir()
 	os.MkdirAll(dir, 0o755)
-	path := filepath.Join(dir, strings.ReplaceAll(p.Name, "/", "_")+"-last.json")
+	path := filepath.Join(dir, strings.ReplaceAll(p.Name, "/", "_")+"-"+strconv.Itoa(os.Getpid())+"-last.json")
 	b, _ := json.MarshalIndent(replayFile{Property: PropID(p.Name), Name: p.Name, Kind: kind, Note: note, Case: raw}, "", " ")
 	os.WriteFile(path, b, 0o644)
 	return path
